@@ -156,8 +156,21 @@ def formatAtoms : Value → List Atom
   | .sliceFloat64 vs => vs.map fun b => .flt b
   | .sliceString vs => vs.map fun s => .str (fmtStr s)
 
-/-- `strings.Split(text, "|")` of the formatted cell: an empty slice prints as "" = one empty piece -/
-def cellPieces (as : List Atom) : List Atom := if as.isEmpty then [.str []] else as
+/-- `strings.Split(s, "|")` on bytes -/
+def splitBar : Txt → List Txt
+  | [] => [[]]
+  | b :: bs =>
+    match splitBar bs with
+    | [] => [[b]]     -- not reached
+    | p :: ps => if b == 124 then [] :: p :: ps else (b :: p) :: ps
+
+/-- `strings.Split(text, "|")` of the formatted cell: an empty slice prints as "" = one empty piece, and a `|` inside
+a string separates pieces like the `|` between elements -/
+def cellPieces (as : List Atom) : List Atom :=
+  if as.isEmpty then [.str []] else
+  as.flatMap fun a => match a with
+    | .str s => (splitBar s).map .str
+    | a => [a]
 
 /-- the scalars of a numeric value (what `ApplyValue` scales one by one); `none` for bool / string / invalid values -/
 def scalarsOf : Value → Option (List Value)
@@ -343,7 +356,7 @@ inductive R (α : Type)
   | ok (a : α)
   | err          -- Convert returns an error
   | unmodelled   -- a path outside the model (text of one kind read as another)
-  deriving Repr
+  deriving Repr, DecidableEq
 
 def btIsUint8 (bt : Nat) : Bool := bt == btEnum || bt == btByte || bt == btUint8 || bt == btUint8z
 
